@@ -1,4 +1,4 @@
-SETUP = "cd /verif/harness && CARGO_NET_OFFLINE=true cargo build --profile verif --offline"
+SETUP = "cd harness && CARGO_NET_OFFLINE=true cargo build --profile verif --offline"
 HOOKS = {
     "guard": "cargo feature verif_hooks",
     "enable": "the worker crate /verif/harness depends on mamba by path with features=[\"verif_hooks\"]; every check command rebuilds it from /repo's working tree",
